@@ -23,7 +23,7 @@ class Ctx:
     def ok(s,*a,**k): pass
 ctx=Ctx()
 rel={f.full for f in repo.all_funcs()}
-for g in (_generic.g1,_generic.g2,_generic.g3,_generic.g4):
+for g in (_generic.g1,_generic.g2,_generic.g3,_generic.g4,_generic.g5,_generic.g6):
     g(ctx,'X',rel,'X.'+g.__name__.upper())
 for v in ctx.v: print(v)
 ''' % sc
